@@ -450,9 +450,13 @@ func (e *Env) rangeOf(guard *Expr, v string) (lo, hi Term, ok bool) {
 		case c.Name == "<" && isV(r) && !mentions(l, v):
 			lo, haveLo = Add(e.evalInt(l), IntLit(1)), true
 		case c.Name == "<" && isV(l) && !mentions(r, v):
-			hi, haveHi = e.evalInt(r), true
+			if h := e.evalInt(r); !haveHi || isLitTerm(h) {
+				hi, haveHi = h, true
+			}
 		case c.Name == "<=" && isV(l) && !mentions(r, v):
-			hi, haveHi = Add(e.evalInt(r), IntLit(1)), true
+			if h := Add(e.evalInt(r), IntLit(1)); !haveHi || isLitTerm(h) {
+				hi, haveHi = h, true
+			}
 		case c.Name == ">=" && isV(l) && !mentions(r, v):
 			lo, haveLo = e.evalInt(r), true
 		}
@@ -501,7 +505,7 @@ func (e *Env) call(ex *Expr) Value {
 		s := v.(Scalar)
 		ts := sortOf(bt)
 		if n, isLit := s.T.IsLit(); isLit && strings.HasPrefix(ts, "E_") {
-			return Scalar{e.x.decls.Const(fmt.Sprintf("lit_%s_%d", ts, n), ts)}
+			return Scalar{e.x.decls.Const("lit_"+ts+"_"+sanitize(fmt.Sprint(n)), ts)}
 		}
 		return e.x.convert(e.st, v, nil, bt, "")
 	}
@@ -649,6 +653,16 @@ func (e *Env) call(ex *Expr) Value {
 		a, b := e.eval(args[0]).(Scalar).T, e.eval(args[1]).(Scalar).T
 		tk := map[string]token.Token{"goeq": token.EQL, "gone": token.NEQ, "golt": token.LSS, "gole": token.LEQ, "gogt": token.GTR, "goge": token.GEQ}[name]
 		return Scalar{e.x.binTerm(e.st, tk, a, b, "")}
+	case "fnval":
+		// fnval("execution.MinI8"): the function value of a named function
+		key := expandKey(args[0].Name)
+		fn := e.x.P.funcs[key]
+		if fn == nil {
+			e.fail("fnval: unknown function %q", args[0].Name)
+		}
+		return e.x.funcValue(fn)
+	case "niliface":
+		return IfaceV{IntLit(0), IntLit(0)}
 	case "fst":
 		return e.eval(args[0]).(TupleV).Elems[0]
 	case "snd":
@@ -751,3 +765,5 @@ func (e *Env) specCall(f *SpecFn, args []*Expr, ex *Expr) Value {
 	}
 	return e.x.specApply(e, f, vals)
 }
+
+func isLitTerm(t Term) bool { _, ok := t.IsLit(); return ok }
